@@ -11,7 +11,7 @@ import random
 from harness import common, runner, report
 from checks import rating
 
-TAILS = ['toWM5Slw5Ew8Mqkay+al2g==', 'A/vxljAEU54gt9a48EiANQ==', 'eipGX3TCiQSrx573bT1o1Q==']
+TAILS = ['toWM5Slw5Ew8Mqkay+al2g==', 'A/vxljAEU54gt9a48EiANQ==', 'eipGX3TCiQSrx573bT1o1Q==', 'n7Xo/PqZ0V1bYcR2dKt5mw==']
 
 
 def unknown_names(tb, rnd):
@@ -51,7 +51,7 @@ def build_cases(tb, rnd, tier):
         for n in names:
             spells = [n]
             if n.startswith('gss-') and n.endswith('*'):
-                spells = [n[:-1] + t for t in (TAILS if tier == 'thorough' else TAILS[:1])]
+                spells = [n[:-1] + t for t in (TAILS if tier == 'thorough' else (TAILS[len(cases) % 2], TAILS[2 + len(cases) % 2]))]
             for sp in spells:
                 a, b = rnd.sample([x for x in plain if x != sp], 2)
                 layouts = [('alone', [sp]), ('first', [sp, a, b]), ('middle', [a, sp, b]), ('last', [a, b, sp])]
@@ -79,6 +79,22 @@ def build_cases(tb, rnd, tier):
                 c = rating.mk_case(cid[0], role=role, kex=kx, key=['ssh-ed25519'], enc=enc, mac=mac)
                 cases.append(c)
                 meta[c['id']] = (cat, n, 'unknown-terrapin-shape')
+    # the same spelling in two categories: each occurrence is rated by its own category's table (known in one, unknown in the other)
+    cross = [dict(enc=['none', 'aes128-ctr'], mac=['none', 'hmac-sha2-256']),
+             dict(enc=['aes128-ctr', 'none'], mac=['hmac-sha2-256', 'none', 'aes128-ctr']),
+             dict(kex=['curve25519-sha256', 'ssh-ed25519'], key=['ssh-ed25519', 'curve25519-sha256']),
+             dict(key=['ssh-ed25519', 'diffie-hellman-group14-sha256']),
+             dict(enc=['hmac-sha2-256', 'aes128-ctr'], mac=['hmac-sha2-256']),
+             dict(kex=['curve25519-sha256', 'aes256-ctr'], enc=['aes256-ctr']),
+             dict(kex=['curve25519-sha256', 'hmac-sha1'], enc=['hmac-sha1', 'aes128-ctr'], mac=['hmac-sha1'])]
+    for role in ('server', 'client'):
+        for cr in cross:
+            cid[0] += 1
+            d = dict(base)
+            d.update(cr)
+            c = rating.mk_case(cid[0], role=role, **d)
+            cases.append(c)
+            meta[c['id']] = (sorted(cr)[0], cr[sorted(cr)[0]][0], 'same-name-two-categories')
     # measured context: the same name with different measured sizes, text vs JSON must agree with the rule
     ossh = {'product': 'OpenSSH', 'c': [8, 9], 'p': ['p', 1]}
     for bits in (1024, 2048, 3072, 4096):
